@@ -35,7 +35,8 @@ def prep(with_patch):
 
 def build_demo(tag):
     exe = '%s/_demo_%s' % (scratch, tag)
-    r = sh('clang++ -std=gnu++17 -g -O1 -fsanitize=address -DASL_STATIC -I%s/include %s $(ls %s/src/*.cpp | grep -v TlsSocket) -lpthread -ldl -o %s' % (scratch, demo, scratch, exe))
+    san = 'thread' if '--tsan' in sys.argv else 'address'
+    r = sh('clang++ -std=gnu++17 -g -O1 -fsanitize=' + san + ' -DASL_STATIC -I%s/include %s $(ls %s/src/*.cpp | grep -v TlsSocket) -lpthread -ldl -o %s' % (scratch, demo, scratch, exe))
     if r.returncode != 0:
         print('DEMO BUILD FAILED', r.stderr[-1500:])
         sys.exit(3)
